@@ -1,4 +1,4 @@
-import Juniper.Proofs.TreeSlotsOpsHistory
+import Juniper.Proofs.TreeSlotsOpsHeap
 /-!
 # C03, clause "no retained garbage", at slot level
 
@@ -19,11 +19,12 @@ dropping one of the statements from the Go source makes exactly the theorems tha
   list expressions `Model/BTree.lean` uses: `take i ++ x :: drop i`, `take i ++ drop (i+1)`, …);
 * `tail_cleared_*` — hence every slot behind the new live prefix is `none` (`TailCleared`, `TailOK`);
 * `no_retained_slots` — every history of node-level operations (each within the precondition its Go
-  function documents) from the empty root leaves every live node with cleared tails.
-
-That `Put` / `Delete` compose exactly these node-level operations is the hand-written part
-`Heap.put` / `Heap.delete` of the model; it is compared with the real `tree.Map[*int,*int]` raw slot by
-raw slot after every operation (harness `c03slots`).
+  function documents) from the empty root leaves every node that has not been unlinked with cleared
+  tails;
+* `no_retained_slots_tree` — the same after every history of `Put` / `Delete` of the heap model
+  (`Heap.put` / `Heap.delete`), which changes its store only through enabled node-level operations
+  and is compared with the real `tree.Map[*int,*int]` raw slot by raw slot after every operation
+  (harness `c03slots`).
 -/
 namespace Juniper.Props.C03Slots
 open Juniper.Model.BTreeSlotsOps Juniper.Proofs.TreeSlotsOps Juniper.Gen
@@ -347,25 +348,50 @@ example :
 
 /-! ## histories -/
 
-/-- **No retained slots.** Start from `newBtree`'s empty root and apply any sequence of node-level
-operations, each within its documented precondition (`applyOp`); then in every live node every key
-and value slot from `n` on is zero, and the node either is a leaf with all child slots zero or its
-child slots from `n + 1` on are zero. Needs every zeroing / clearing / shifting statement of
-`btree.go` to be present (`ZeroingPresent`, the conjunction of the generated presence facts). -/
-theorem no_retained_slots (ops : List (NodeOp K V C)) {fam : List (SNode K V C)}
-    (hrun : runOps [SNode.fresh] ops = some fam) :
-    ∀ x ∈ fam, TailOK x := by
+/-- **No retained slots, node-level histories.** Start from `newBtree`'s empty root and apply any
+sequence of node-level operations, each within its documented precondition (`applyOp`); then in every
+node object that has not been unlinked every key and value slot from `n` on is zero, and the node
+either is a leaf with all child slots zero or its child slots from `n + 1` on are zero. Needs every
+zeroing / clearing / shifting statement of `btree.go` to be present (`ZeroingPresent`, the
+conjunction of the generated presence facts). -/
+theorem no_retained_slots (ops : List (NodeOp K V C)) {fam : Fam K V C}
+    (hrun : runOps [some SNode.fresh] ops = some fam) :
+    ∀ x, some x ∈ fam → TailOK x := by
   have hf : ZeroingPresent := by decide
-  have h0 : AllClean ([SNode.fresh] : List (SNode K V C)) := by
+  have h0 : AllClean ([some SNode.fresh] : Fam K V C) := by
     intro x hx; simp at hx; subst hx; exact clean_fresh
   exact fun x hx => (runOps_clean hf ops h0 hrun x hx).tailOK
 
 /-- a history through a leaf split, a new root, steals in both directions and a merge is enabled -/
 example :
-    (runOps ([SNode.fresh] : List (SNode Nat Nat Nat))
+    (runOps ([some SNode.fresh] : Fam Nat Nat Nat)
       ((List.range 15).map (fun i => NodeOp.leafInsert 0 i (10 * (i + 1)) i) ++
-       [.split 0 15 160 15 none, .newRoot 90 8 0 1, .setValue 2 0 88, .leafRemove 1 0, .rotateRight 2 0 1 0,
-        .rotateLeft 2 0 1 1, .removeRightmost 1, .replaceEntry 2 0 85 5, .mergeTwo 2 0 1 0, .drop 0])).isSome = true := by
+       [.split 0 15 160 15 none, .newRoot 90 8 0 1, .setParent 0 (some 2), .setValue 2 0 88, .leafRemove 1 0,
+        .rotateRight 2 0 1 0, .rotateLeft 2 0 1 1, .removeRightmost 1, .replaceEntry 2 0 85 5, .mergeTwo 2 0 1 0,
+        .drop 2])).isSome = true := by
+  decide
+
+/-- **No retained slots, whole tree.** After every history of `Put`s and `Delete`s on the heap model
+(`Heap.put` / `Heap.delete`: the transliteration of `btree.Put` / `btree.Delete` with parent pointers
+that the correspondence harness compares with the real `tree.Map` raw slot by raw slot, and that
+changes its store only through enabled node-level operations), every node object of the store that
+has not been unlinked — in particular every node reachable from the root — has only zero slots
+behind its live prefixes. (`none` = the model hit a nil dereference / index out of range or left the
+documented precondition of a helper; the harness checks that model and code agree on the outcome.) -/
+theorem no_retained_slots_tree (cmp : K → K → Int) (ms : List (Heap.Mut K V)) {h : Heap K V}
+    (hrun : Heap.runMuts cmp Heap.empty ms = some h) :
+    ∀ id x, h.get id = some x → TailOK x := by
+  have hf : ZeroingPresent := by decide
+  intro id x hx
+  exact ((runMuts_clean hf cmp ms clean_empty hrun).get hx).tailOK
+
+/-- 16 `Put`s (leaf split, new root), then two `Delete`s: a steal from the left sibling and a merge
+with root collapse; one live node with 14 entries remains -/
+example :
+    (Heap.runMuts (fun a b : Int => a - b) (Heap.empty : Heap Int Int)
+      ((List.range 16).map (fun (i : Nat) => Heap.Mut.put (10 * ((i : Int) + 1)) (i : Int)) ++ [.del 160, .del 150])).map
+        (fun h => (h.size, h.live, h.events.reverse)) =
+      some (14, [0], ["split-leaf", "newroot", "rotr-leaf", "merge-leaf", "collapse"]) := by
   decide
 
 end Juniper.Props.C03Slots
